@@ -50,7 +50,7 @@ package har
 //@ func NewRequest
 //@   serves C16
 //@   requires req != nil && req.URL != nil && req.Header != nil
-//@   modifies http.Request.Body, messageview.MessageView.*, mvReadSrc, mvReadData, mvReaderData, mvReader, mvNopSrc, mvNop, mvCLWritten, mvCLValue, bodyFramed, bodyDecoded, harURL, lastPostData, lastBodyRead
+//@   modifies http.Request.Body, messageview.MessageView.*, mvDidRead, mvReadSrc, mvReadData, mvReaderData, mvReader, mvNopSrc, mvNop, mvCLWritten, mvCLValue, bodyFramed, bodyDecoded, harURL, lastPostData, lastBodyRead
 //@   noframe
 //@   ensures (result1 == nil) == (result0 != nil)
 //@   ensures[request-line-fields-are-those-of-the-request] result1 == nil ==> result0.Method == req.Method && result0.HTTPVersion == req.Proto && result0.URL == harURL
@@ -62,7 +62,7 @@ package har
 //@ func NewResponse
 //@   serves C16
 //@   requires res != nil && res.Header != nil
-//@   modifies http.Response.Body, messageview.MessageView.*, mvReadSrc, mvReadData, mvReaderData, mvReader, mvNopSrc, mvNop, mvCLWritten, mvCLValue, bodyFramed, bodyDecoded, lastBodyRead
+//@   modifies http.Response.Body, messageview.MessageView.*, mvDidRead, mvReadSrc, mvReadData, mvReaderData, mvReader, mvNopSrc, mvNop, mvCLWritten, mvCLValue, bodyFramed, bodyDecoded, lastBodyRead
 //@   noframe
 //@   ensures (result1 == nil) == (result0 != nil)
 //@   ensures[status-line-fields-are-those-of-the-response] result1 == nil ==> result0.Status == res.StatusCode && result0.StatusText == http.StatusText(res.StatusCode) && result0.HTTPVersion == res.Proto
@@ -217,7 +217,7 @@ package har
 //@ func postData
 //@   serves C15 C16
 //@   requires req != nil && req.Header != nil && req.URL != nil
-//@   modifies http.Request.Body, messageview.MessageView.*, mvReadSrc, mvReadData, mvReaderData, mvReader, mvNopSrc, mvNop, mvCLWritten, mvCLValue, bodyFramed, bodyDecoded
+//@   modifies http.Request.Body, messageview.MessageView.*, mvDidRead, mvReadSrc, mvReadData, mvReaderData, mvReader, mvNopSrc, mvNop, mvCLWritten, mvCLValue, bodyFramed, bodyDecoded
 //@   noframe
 //@   loop 0 invariant true
 //@   loop 1 invariant true
@@ -228,9 +228,9 @@ package har
 //@   at call 0 of NewReader before assert[multipart-post-data-is-parsed-from-the-body-without-chunk-framing; C16] !bodyFramed
 //@   at call 1 of ReadAll before assert[form-post-data-is-parsed-from-the-body-without-chunk-framing; C16] !bodyFramed
 //@   at call 2 of ReadAll before assert[text-post-data-is-the-body-without-chunk-framing; C16] !bodyFramed
-//@   at call 0 of NewReader before assert[post-data-keeps-the-content-coding-the-origin-receives; C16] !bodyDecoded
-//@   at call 1 of ReadAll before assert[post-data-keeps-the-content-coding-the-origin-receives; C16] !bodyDecoded
-//@   at call 2 of ReadAll before assert[post-data-keeps-the-content-coding-the-origin-receives; C16] !bodyDecoded
+//@   at call 0 of NewReader before assert[post-data-keeps-the-content-coding-the-origin-receives; C16 C15] !bodyDecoded
+//@   at call 1 of ReadAll before assert[post-data-keeps-the-content-coding-the-origin-receives; C16 C15] !bodyDecoded
+//@   at call 2 of ReadAll before assert[post-data-keeps-the-content-coding-the-origin-receives; C16 C15] !bodyDecoded
 //@   at call 1 of ReadAll before assert[form-parser-reads-the-snapshot-not-the-forwarded-body] arg0 == br
 //@   at call 2 of ReadAll before assert[text-capture-reads-the-snapshot-not-the-forwarded-body] arg0 == br
 
